@@ -75,6 +75,44 @@ def make_copula(family, theta, tau=None, random_state=None):
     return c
 
 
+def sibling_theta(family, theta):
+    """Another admissible parameter of the same family, clearly different from theta."""
+    theta = float(theta)
+    if family == 'frank':
+        return -theta if abs(theta) > 0.5 else 3.0
+    if family == 'gumbel':
+        return 1.0 + 1.7 * (theta - 1.0) + 0.8
+    return 1.7 * theta + 0.6
+
+
+def interleave_sibling(cop, family, theta, X, random_state=None, n_sample=0):
+    """Two live models of one class: evaluate `cop` once, then a sibling with another parameter on the same points
+    (and, if asked, sample it with the same seed and size), so that whatever the class or the module remembers from
+    the sibling is in place when the caller's checks evaluate `cop` again.  Nothing is asserted here."""
+    import numpy as np
+
+    sib = make_copula(family, sibling_theta(family, theta), random_state=random_state)
+    X = np.array(X, dtype=float)
+    inner = X[(X[:, 0] > 0) & (X[:, 0] < 1) & (X[:, 1] > 0) & (X[:, 1] < 1)] if len(X) else X
+    for obj in (cop, sib):
+        for meth in ('cumulative_distribution', 'probability_density', 'partial_derivative'):
+            try:
+                getattr(obj, meth)(X.copy())
+            except Exception:
+                pass
+        if len(inner):
+            try:
+                obj.percent_point(inner[:, 0].copy(), inner[:, 1].copy())
+            except Exception:
+                pass
+    if n_sample:
+        try:
+            sib.sample(n_sample)
+        except Exception:
+            pass
+    return sib
+
+
 # ---- tables --------------------------------------------------------------------------------------
 
 MARGINALS = ['normal', 'uniform', 'beta', 'gamma', 'student_t', 'loglaplace', 'truncnorm', 'mixture', 'integer']
